@@ -524,6 +524,13 @@ impl PrometheusBuilder {
         self.build_with_clock(Clock::new())
     }
 
+    /// Verification only: builds the recorder with the given clock.
+    #[cfg(metrics_verif)]
+    #[doc(hidden)]
+    pub fn __verif_build_with_clock(self, clock: Clock) -> PrometheusRecorder {
+        self.build_with_clock(clock)
+    }
+
     pub(crate) fn build_with_clock(self, clock: Clock) -> PrometheusRecorder {
         let inner = Inner {
             registry: Registry::new(GenerationalStorage::new(AtomicStorage)),
